@@ -24,6 +24,10 @@ CORPUS = [
     "shelves/{shelf}/books/{book}", "{x}.{y}", "{a}-{b}_{c}~{d}", "projects/{project}/locations/{location}/keyRings/{key_ring}",
     "*", "files/{file=**}", "a.b/{x}", "{only}", "plain/literal", "as/{a}-{b}/cs/{c}%{d}_{e}", "x/{y}/z", "p/{q}/r/{s=**}",
     "kingdoms-{kingdom}_{phylum}#classes%{klass}", "a+b/{c}", "{a}/{b}", "projects/{project}/metricDescriptors/{metric_descriptor=**}",
+    # variables named by words of the generator's reserved list that are legal Python identifiers: the helper's parameters, the
+    # format string and the parser's group names all use the pattern's own names
+    "projects/{project}/types/{type}/formats/{format}", "buckets/{bucket}/objects/{object=**}", "lists/{list}/ranges/{range}~{hash}",
+    "{any}/{all}/{next}", "licenses/{license}/{min}-{max}",
 ]
 
 
@@ -32,7 +36,8 @@ def gen_pattern(r):
         return "*"
     nvars = r.randint(1, 6)
     parts, names = [], []
-    pool = ["project", "location", "shelf", "book", "a", "b1", "key_ring", "x", "item_id", "zone", "v", "name2", "org", "folder"]
+    pool = ["project", "location", "shelf", "book", "a", "b1", "key_ring", "x", "item_id", "zone", "v", "name2", "org", "folder",
+            "type", "object", "format", "list", "range", "hash", "license", "filter", "max", "id", "input", "set"]
     r.shuffle(pool)
     i = 0
     while i < nvars:
@@ -412,6 +417,17 @@ def resource_api(r):
             tgt = by_name[r.choice(sorted(set(cands)))]
             f = tgt.field.add()
             f.name, f.number, f.label, f.type, f.type_name = "deep_one", 98, 1, 11, d1.fqn
+    if r.random() < 0.7:
+        api.main.resource_def("library.example.com/Codec", ["projects/{project}/types/{type}/formats/{format}"])
+        api.main.resource_def("library.example.com/Blob", ["buckets/{bucket}/objects/{object=**}"])
+        by_name = {"." + api.main.proto.package + "." + m.name: m for m in api.main.proto.message_type}
+        svc = r.choice(api.services).proto
+        cands = sorted({t for meth in svc.method for t in (meth.input_type, meth.output_type) if t in by_name})
+        if cands:
+            tgt = by_name[r.choice(cands)]
+            for nm, num, typ in (("codec", 93, "library.example.com/Codec"), ("blob", 94, "library.example.com/Blob")):
+                f = tgt.field.add(); f.name, f.number, f.label, f.type = nm, num, 1, 9
+                f.options.Extensions[resource_pb2.resource_reference].type = typ
     api.extra = []
     if r.random() < 0.6:
         # resources DECLARED in a dependency package's file (not generated), reached only through references
@@ -541,8 +557,8 @@ def run(ctx):
     n = ctx.n(60, 600)
     for i in range(n):
         pats.append(gen_pattern(env.rng("C19-pat", i)))
-    run_pure(ctx, pats, ctx.n(4, 10))
-    run_e2e(ctx, ctx.n(6, 60))
+    ctx.stage("pure T2", run_pure, ctx, pats, ctx.n(4, 10))
+    ctx.stage("end-to-end T1 + oracle", run_e2e, ctx, ctx.n(6, 60))
 
 
 def replay(ctx, rep):
